@@ -4,6 +4,7 @@ package main
 // are cut points, calls use the callee contract or are inlined.
 
 import (
+	"os"
 	"fmt"
 	"time"
 	"go/constant"
@@ -214,6 +215,7 @@ type Exec struct {
 	obls     []*Obl
 	rootKey  string
 	rootFC   *FuncContract
+	rootNames map[string]bool
 	fresh    int
 	cellID   int
 	paths    int
@@ -1789,8 +1791,20 @@ func (x *Exec) havocLoop(st *State, fr *Frame, lp *Loop, b *ssa.BasicBlock) {
 	kinds := map[string]bool{}
 	if x.w.eventKindsIn(fr.fn, lp.blocks, 0, kinds) {
 		x.loopKinds = kinds
+		if os.Getenv("GOVC_DEBUG") != "" {
+			fmt.Fprintf(os.Stderr, "havocLoop %s: kinds %v\n", fr.fn.Name(), kinds)
+		}
 	} else {
+		if os.Getenv("GOVC_DEBUG") != "" {
+			fmt.Fprintf(os.Stderr, "havocLoop %s: imprecise\n", fr.fn.Name())
+		}
 		x.loopKinds = nil
+	}
+	if x.loopKinds != nil && x.loopKinds["strings_Join"] && x.rootMentions("strings_Join") && !eff.events {
+		// Join calls are logged for this function (its contract talks about them)
+		e2 := *eff
+		e2.events = true
+		eff = &e2
 	}
 	x.applyHavoc(st, fr, eff, "loop")
 	x.loopKinds = nil
